@@ -2082,7 +2082,7 @@ def check_misc_simulator_tables(ctx, rep, pid):
                             none_means = is_call(core_, 'is_none')
                             nothing = (found_means and (pol if neg else not pol)) or (none_means and (not pol if neg else pol))
                             rep.ob('C19.R6', fn, 'assertion-fires-only-when-nothing-was-found', nothing, 'panic on %s = %s' % (shape(e)[:40], pol))
-            rep.count_floor('C19.R6', 'consistency assertions in ' + name, n, 1)
+            rep.extra['assertions_judged:' + name] = n   # `expect` / let-else forms have no separate assertion to judge
 
 
 def check_C19(ctx, rep):
